@@ -20,7 +20,7 @@ KNOWN_SWITCHES = ("F9", "F9b")
 RULE = (
     "product of: control form {stop(c), c->stop(), skip(c), c->skip(), c->advance(1..3), fail_and_stop(c), last()->push, bare last()} x "
     "position among 1-4 push components (also with a plain match component that fails on the firing lines) x firing line(s) x scan window {*,1*,2*,0-3,1-4,2-9,1+3-5} x file layout {plain, interior blank, "
-    "trailing blank, two trailing blanks, blank before firing line}; thorough adds two control functions per program and an "
+    "trailing blank, two trailing blanks, blank before firing line}; a third of the programs carry unmatched-mode: keep; thorough adds two control functions per program and an "
     "onmatch-qualified component before the control function. Non-trivial: the control function fires on at least one scanned line; "
     "distinct = distinct (program skeleton, firing lines, window, layout)."
 )
@@ -164,7 +164,7 @@ def run_one(prog, rows, meta, agg):
 
     prog = lang.tolist(prog)
     status, info = diffrun.decide(prog, rows, agg, WHAT, KNOWN_SWITCHES, extra_check=temporal_rules)
-    shape = lang.prog_shape(prog) + f"|{meta['fire']}|{meta['window']}|{meta['layout']}"
+    shape = lang.prog_shape(prog) + f"|{meta['fire']}|{meta['window']}|{meta['layout']}|{meta.get('comment', '')}"
     case = {"prog": prog, "rows": rows, "meta": meta}
     if status == "held":
         # non-trivial: the control function actually fired / advanced over a scanned line (last(): some line was scanned)
@@ -190,6 +190,11 @@ def run_shard(spec, agg):
     for i, (prog, rows, meta) in enumerate(cases(spec["tier"], spec["seed"])):
         if i % spec["nshards"] != spec["shard"]:
             continue
+        if (i // spec["nshards"]) % 3 == 0:
+            # a third of the programs keep their unmatched lines: an option that changes what the run loop does with a
+            # line after the match part has decided - never what the controls mean
+            prog = dict(prog, comment="unmatched-mode: keep ")
+            meta = dict(meta, comment=prog["comment"].strip())
         run_one(prog, rows, meta, agg)
 
 
